@@ -309,10 +309,15 @@ def unbind (s : Str) : Option WFN :=
 
 /-! ### marshaling.go, wfn.go NewValue -/
 
-/-- `(*WFN).UnmarshalText(b)` (and `Scan` of a string or of bytes) on the
-    receiver `w0`: the receiver afterwards, `none` = an error is returned.
-    Empty input leaves the receiver as it is. -/
-def unmarshalText (w0 : WFN) (b : Str) : Option WFN := if b = [] then some w0 else unbind b
+/-- `(*WFN).UnmarshalText(b)` on the receiver `w0`: the receiver afterwards,
+    `none` = an error is returned.  Empty input gives the unset name whatever
+    the receiver held (/repo 498444fa; it used to leave the receiver). -/
+def unmarshalText (_w0 : WFN) (b : Str) : Option WFN :=
+  if b = [] then some (List.replicate 11 unsetValue) else unbind b
+
+/-- `(*WFN).Scan` of a string or of bytes on the receiver `w0`: empty input
+    "does not error and leaves the WFN in its current state" (documented). -/
+def scanText (w0 : WFN) (b : Str) : Option WFN := if b = [] then some w0 else unbind b
 
 /-- `NewValue(v)` succeeds. -/
 def newValueOk (v : Str) : Bool := validate v && !v.isEmpty
